@@ -152,22 +152,24 @@ func (s *cfgStore) UpdateStatus(ctx context.Context, c *configapi.Configuration)
 
 // Sys is the real control plane under the harness's control.
 type Sys struct {
-	Atomix  *test.Client
-	Topo    *Topo
-	Devs    *Devices
-	Plugins *Plugins
-	RawTx   transaction.Store
-	RawProp proposal.Store
-	RawCfg  configuration.Store
-	Tx      *txStore
-	Prop    *propStore
-	Cfg     *cfgStore
-	inj     *injector
-	txR     *txctl.Reconciler
-	propR   *propctl.Reconciler
-	cfgR    *cfgctl.Reconciler
-	mastR   *mastctl.Reconciler
-	nTx     int
+	Atomix   *test.Client
+	Topo     *Topo
+	Devs     *Devices
+	Plugins  *Plugins
+	RawTx    transaction.Store
+	RawProp  proposal.Store
+	RawCfg   configuration.Store
+	Tx       *txStore
+	Prop     *propStore
+	Cfg      *cfgStore
+	inj      *injector
+	txR      *txctl.Reconciler
+	propR    *propctl.Reconciler
+	cfgR     *cfgctl.Reconciler
+	mastR    *mastctl.Reconciler
+	nTx      int
+	queue    *workQueue
+	watchers []stopper
 }
 
 // New builds a fresh system.
@@ -198,7 +200,10 @@ func New() (*Sys, error) {
 }
 
 // Close releases the atomix test client.
-func (s *Sys) Close() { s.Atomix.Close() }
+func (s *Sys) Close() {
+	s.StopWatchers()
+	s.Atomix.Close()
+}
 
 func tname(t string) string { return "t" + t }
 
